@@ -7,6 +7,7 @@
 (* of Keyspace::insert/remove/clear, WriteBatch::commit, Database::persist  *)
 (* and Journal/Writer::persist, so that crashes, power losses and injected  *)
 (* I/O errors can strike between any two of them, with several writer       *)
+(* (manual journal persist exists twice: per keyspace and per database)     *)
 (* threads.  Serves C02/C03 (frame granularity), C09, C13.                   *)
 (*                                                                           *)
 (* Frames are identified by the operation that wrote them (frame i = op i).  *)
@@ -19,10 +20,13 @@ CONSTANTS
     Threads,         \* writer threads
     MaxOps,          \* operations issued in total
     Kinds,           \* subset of {"w", "c", "b"}: single write, clear, batch
-    Manual,          \* manual_journal_persist (writes do not flush the buffer themselves)
+    ManualKs,        \* manual_journal_persist of the KEYSPACE (insert / remove / clear do not flush the buffer)
+    ManualDb,        \* manual_journal_persist of the DATABASE (batches / transactions do not flush it)
     MaxFaults,       \* injected I/O errors
     EnPersistCall,   \* Database::persist calls by a client
     FixPoisonAppend, \* model of repair: batch / clear poison on a failed journal append as well
+    PersistShortcut, \* TRUE (not the code): persist(Buffer) returns at once when the database is not in
+                     \* manual mode ("every write flushed already") - wrong with a manual keyspace
     ClearFlushes     \* model of repair D27: clear flushes the buffer before it drops the tables, also
                      \* with manual persist (FALSE = the code as found)
 
@@ -129,7 +133,9 @@ AppendFail(t) ==
 
 \* persist(Buffer) inside the write (skipped with manual persist; batches persist with their
 \* durability, here Buffer; clear always persists, because its Apply drops tables on disk)
-SkipsFlush(i) == Manual /\ kind[i] # "b" /\ ~(ClearFlushes /\ kind[i] = "c")
+Manual == ManualKs \/ ManualDb
+SkipsFlush(i) == IF kind[i] = "b" THEN ManualDb
+                 ELSE ManualKs /\ ~(ClearFlushes /\ kind[i] = "c")
 
 FlushOk(t) ==
     /\ Running /\ pc[t] = "appended"
@@ -179,8 +185,17 @@ PersistBegin(m) ==
     /\ UNCHANGED <<lock, pc, cur, nops, kind, frame, nOs, osPart, nSync, syncPart, ack, applied,
                    poisoned, ioFailed, ackedAtFail, badAck, faults, durable, bufdurable, phase, rec>>
 
+\* the variant's early return: nothing flushed, the call reports success
+PersistSkip ==
+    /\ Running /\ PersistShortcut /\ pmode = "Buffer" /\ ~ManualDb /\ lock # Client
+    /\ bufdurable' = bufdurable \cup pSnap
+    /\ pmode' = ""
+    /\ UNCHANGED <<lock, pc, cur, nops, kind, frame, nOs, osPart, nSync, syncPart, ack, applied,
+                   poisoned, ioFailed, ackedAtFail, badAck, faults, pSnap, durable, phase, rec>>
+
 PersistLock ==
     /\ Running /\ pmode # "" /\ lock = Free
+    /\ ~(PersistShortcut /\ pmode = "Buffer" /\ ~ManualDb)
     /\ lock' = Client
     /\ UNCHANGED <<pc, cur, nops, kind, frame, nOs, osPart, nSync, syncPart, ack, applied,
                    poisoned, ioFailed, ackedAtFail, badAck, faults, pmode, pSnap, durable, bufdurable, phase, rec>>
@@ -245,7 +260,7 @@ Next ==
                           \/ FlushFail(t) \/ Apply(t) \/ Ack(t)
     \/ \E t \in Threads, k \in Kinds : Draw(t, k)
     \/ \E m \in {"Buffer", "SyncData", "SyncAll"} : PersistBegin(m)
-    \/ PersistLock \/ PersistDoOk \/ PersistDoFail
+    \/ PersistLock \/ PersistSkip \/ PersistDoOk \/ PersistDoFail
     \/ AdvanceOs \/ Crash \/ PowerLoss
 
 Spec == Init /\ [][Next]_vars
